@@ -365,6 +365,9 @@ def r6_persist_errors(ctx, cfg):
 
 
 def run(ctx, cfg=CFG):
+    # E-stale (rules/stale.py): no snapshot of a self field is written back after a self-method call that may have changed it
+    from . import stale
+    stale.rule_stale(ctx, "C04.R8", "cascette_client_storage", r"src/(storage|container|installation)")
     # E-dirty (rules/dirtyflag.py): every dirty flag found in the crate whose saver lives in this property's modules
     from . import dirtyflag
     dirtyflag.rule_dirty(ctx, "C04.R7", ["cascette_client_storage"], file_pat=r"src/(index|storage|container|installation)", floor=0)
@@ -386,4 +389,4 @@ def run(ctx, cfg=CFG):
 
 
 from .selftest import for_families as _ff  # noqa: E402
-selftest = _ff(['gate', 'slice', 'errflow', 'dirty'])
+selftest = _ff(['gate', 'slice', 'errflow', 'dirty', 'stale'])
